@@ -79,3 +79,16 @@ impl LuaIndex for LuaFlowIndex {
         self.signature_cast_cache.clear();
     }
 }
+
+#[cfg(feature = "verif-hooks")]
+impl LuaFlowIndex {
+    /// verif hook H1: entry counts of every map of this index
+    pub fn verif_sizes(&self, out: &mut Vec<(String, usize)>) {
+        out.push(("flow.file_flow_tree".into(), self.file_flow_tree.len()));
+        out.push(("flow.signature_cast_cache".into(), self.signature_cast_cache.len()));
+        out.push((
+            "flow.signature_cast_cache.sum".into(),
+            self.signature_cast_cache.values().map(|v| v.len()).sum(),
+        ));
+    }
+}
